@@ -4,7 +4,7 @@ ID = "C08"; DRIVER = "c08"; MODEL = "c08"
 COQ_PROPS = ["Properties_C08.v"]; COQ_EXTRACT = "Extract_C08.v"
 LEVEL = "proof"
 RULE = ("cases = histories (3-10 steps, <=5 live handles) over a pool of automata in ONE BDD encoding (bottom-up or top-down): load from Timbuk text, "
-        "new-empty + load-into (with a copy alive), copy, SetStateFinal, Union, UnionDisjointStates (disjoint numbers or table-sharing copies), "
+        "new-empty + load-into (with a copy alive), load-further-rules into a table-sharing copy, copy, SetStateFinal, Union, UnionDisjointStates (disjoint numbers or table-sharing copies), "
         "Intersection, RemoveUnreachableStates, RemoveUselessStates, destroy; after EVERY step EVERY live handle is dumped (and, bottom-up, its "
         "GetTopDownAut()). corpus (D11/D12 shapes) + targeted (table-sharing copies differing in final states as union/intersection operands; load into a "
         "shared table; intersections of quotient pairs and of richer automata in both operand orders) + random histories over automata with <=3 states. Non-trivial = history with at least one binary operation whose result is non-empty "
@@ -79,8 +79,22 @@ def isect_history(rng, enc):
     if rng.random() < 0.5: b = b.rename({q: q + 10 for q in b.states()})
     steps = ["L 0 " + a.fmt(), "L 1 " + b.fmt(), "X 2 0 1", "X 3 1 0", "%s 4 2" % rng.choice(["UL", "UR"]), "U 5 2 3"]
     return "%s %d SALT %d ; %s" % (enc, len(steps), rng.randrange(12), " ; ".join(steps))
+def leaf_into_copies(rng, enc):
+    """copies of one base automaton (sharing its transition table) into which DIFFERENT leaf rules (and only leaf rules) are loaded afterwards,
+    then union / intersection of the copies: exercises copy-on-write of the nullary part separately from the shared table"""
+    base = gen.rand_ta(rng, rng.randint(2, 3), rng.randint(1, 5), sigma=[(2, 1), (3, 2)], pfinal=0.5)
+    st = sorted(base.states()) or [0]
+    if not base.finals: base.finals = [st[0]]
+    def leaves():
+        return gen.TA([q for q in st if rng.random() < 0.2], [(rng.choice([0, 1]), rng.choice(st), ()) for _ in range(rng.randint(1, 3))])
+    steps = ["L 0 " + base.fmt() if rng.random() < 0.7 else "N 0", "C 1 0", "LA 0 " + leaves().fmt(), "LA 1 " + leaves().fmt(),
+             "U 2 0 1", "U 3 1 0", "X 4 0 1", "%s 5 2" % rng.choice(["UL", "UR"])]     # no UnionDisjointStates: the state sets overlap and the rules differ (outside its precondition)
+    if rng.random() < 0.4: steps.insert(2, "C 6 1")
+    return "%s %d SALT %d ; %s" % (enc, len(steps), rng.randrange(12), " ; ".join(steps))
 def cases(rng, tier):
     cs = [(l, "corpus") for l in CORPUS]
+    for enc in ("bu", "td"):
+        for _ in range(200 if tier == "quick" else 2500): cs.append((leaf_into_copies(rng, enc), "targeted_leaf_into_copies"))
     nt, nr = (250, 500) if tier == "quick" else (2000, 5000)
     for enc in ("bu", "td"):
         for _ in range(nt * 2): cs.append((isect_history(rng, enc), "targeted_isect"))
@@ -89,7 +103,7 @@ def cases(rng, tier):
     return cs
 def nontrivial(c, impl, verd): return "isect_nonempty" in verd or (" U " in c and c.count(" ; ") >= 5)
 def observe(dist, c, impl, verd):
-    for op in ("L", "LI", "C", "F", "U", "UD", "X", "UR", "UL", "D"):
+    for op in ("L", "LI", "LA", "C", "F", "U", "UD", "X", "UR", "UL", "D"):
         n = c.count("; %s " % op)
         if n: dist["op_" + op] = dist.get("op_" + op, 0) + n
     dist["enc_" + c[:2]] = dist.get("enc_" + c[:2], 0) + 1
@@ -104,10 +118,10 @@ def shrink_candidates(c):
         defined, ok = set(), True
         for o in rest:
             w = o.split()
-            use = {"C": w[2:3], "F": w[1:2], "D": w[1:2], "U": w[2:4], "UD": w[2:4], "X": w[2:4], "UR": w[2:3], "UL": w[2:3], "LI": w[1:2]}.get(w[0], [])
+            use = {"LA": w[1:2], "C": w[2:3], "F": w[1:2], "D": w[1:2], "U": w[2:4], "UD": w[2:4], "X": w[2:4], "UR": w[2:3], "UL": w[2:3], "LI": w[1:2]}.get(w[0], [])
             if any(int(u) not in defined for u in use): ok = False; break
             if w[0] == "D": defined.discard(int(w[1]))
-            elif w[0] != "F": defined.add(int(w[1]))
+            elif w[0] not in ("F", "LA"): defined.add(int(w[1]))
         if ok and rest: yield "%s %d%s ; %s" % (enc, len(rest), salt, " ; ".join(rest))
 def explain(c, impl, verd):
     return ("case = <encoding> <n> ; op ; ... (see harness/drv/c08.cc for the ops); impl = after every step 'S' the dump of every live handle (and 'TD' the dump of GetTopDownAut() "
